@@ -268,9 +268,9 @@ func (an *An) refine(v ssa.Value, base AV, facts []ir.Fact) AV {
 		}
 		op := f.Op
 		var other ssa.Value
-		if f.X == v {
+		if sameValue(f.X, v) {
 			other = f.Y
-		} else if f.Y == v {
+		} else if sameValue(f.Y, v) {
 			other = f.X
 			op = ir.Flip(op)
 		} else {
@@ -346,6 +346,15 @@ func (an *An) base(v ssa.Value, facts []ir.Fact) AV {
 			}
 			in, se := an.classify(e, x, fs, 0)
 			indep = append(indep, in...)
+			if len(se) > 0 {
+				// bounds the edge's own condition puts on the incoming value (rotated loops test
+				// `i+1 < n` on the back edge): usable when they are loop-invariant
+				b := an.refine(ir.Resolve(e), top(), fs)
+				b.Lo, b.Hi = invariantLins(b.Lo, x.Block()), invariantLins(b.Hi, x.Block())
+				for k := range se {
+					se[k].bound = b
+				}
+			}
 			selfs = append(selfs, se...)
 		}
 		if len(selfs) == 0 {
@@ -364,10 +373,18 @@ func (an *An) base(v ssa.Value, facts []ir.Fact) AV {
 			case "add":
 				lo, hi, okLo, okHi := se.d.ConstBounds()
 				if !(okLo && lo >= 0) {
-					loOK = false
+					if len(se.bound.Lo) > 0 {
+						loSet = append(loSet, AV{Lo: se.bound.Lo})
+					} else {
+						loOK = false
+					}
 				}
 				if !(okHi && hi <= 0) {
-					hiOK = false
+					if len(se.bound.Hi) > 0 {
+						hiSet = append(hiSet, AV{Hi: se.bound.Hi})
+					} else {
+						hiOK = false
+					}
 				}
 				nan = nan || se.d.NaN
 			case "min":
@@ -766,6 +783,40 @@ func ProvesGE(av AV, target Lin) bool {
 type selfEdge struct {
 	kind string // add: phi + d ; min: math.Min(phi, x) ; max: math.Max(phi, x)
 	d, x AV
+	bound AV // loop-invariant bounds the edge condition puts on the incoming value
+}
+
+// invariantLins keeps the bounds whose symbols are defined outside the loop headed by hdr.
+func invariantLins(ls []Lin, hdr *ssa.BasicBlock) []Lin {
+	var out []Lin
+	for _, l := range ls {
+		ok := true
+		for s := range l.Coef {
+			if !invariantSym(s, hdr, 0) {
+				ok = false
+			}
+		}
+		if ok {
+			out = append(out, l)
+		}
+	}
+	return out
+}
+
+func invariantSym(s ssa.Value, hdr *ssa.BasicBlock, depth int) bool {
+	switch x := s.(type) {
+	case *ssa.Parameter, *ssa.Const, *ssa.Global, *ssa.FreeVar, *ssa.Function:
+		return true
+	case *ssa.Call:
+		if ir.Callee(x).Builtin == "len" && len(x.Call.Args) == 1 && depth < 3 {
+			// len symbols stand for the length of their (immutable-length) argument value
+			return invariantSym(ir.Resolve(x.Call.Args[0]), hdr, depth+1)
+		}
+	}
+	if in, ok := s.(ssa.Instruction); ok && in.Block() != nil {
+		return in.Block() != hdr && in.Block().Dominates(hdr)
+	}
+	return false
 }
 
 // classify splits an incoming value of loop phi `phi` into values independent of
@@ -889,4 +940,20 @@ func (an *An) Enter(call *ssa.Call, facts []ir.Fact) *An {
 		}
 	}
 	return sub
+}
+
+// sameValue: identical SSA values, or two constants of equal value (every use of a literal is its own
+// *ssa.Const; a rotated loop tests `0 < n` before the body whose phi starts at the literal 0).
+func sameValue(a, b ssa.Value) bool {
+	if a == b {
+		return true
+	}
+	ca, ok1 := a.(*ssa.Const)
+	cb, ok2 := b.(*ssa.Const)
+	if !ok1 || !ok2 || ca.Value == nil || cb.Value == nil {
+		return false
+	}
+	fa, okA := ir.ConstFloat(ca)
+	fb, okB := ir.ConstFloat(cb)
+	return okA && okB && fa == fb
 }
